@@ -224,6 +224,66 @@ fn check_state(s: &St, ctx: &mut Ctx) -> Vec<St> {
 }
 
 /// NaT is absorbed by every operator of impl_ops.rs
+/// The Polars AnyValue bridge: DateTime<U> <-> AnyValue::Datetime in the three units Polars has; a conversion
+/// between resolutions on this route must denote the same instant truncated toward the past as well.
+fn anyvalue_bridge(ctx: &mut Ctx) {
+    use polars::prelude::{AnyValue, TimeUnit};
+    let fam = "polars-anyvalue";
+    let tu = |u: u8| match u {
+        1 => TimeUnit::Milliseconds,
+        2 => TimeUnit::Microseconds,
+        _ => TimeUnit::Nanoseconds,
+    };
+    for from in 1..=3u8 {
+        for v in lattice(from) {
+            ctx.states += 1;
+            ctx.fam(fam).states += 1;
+            ctx.nontrivial(fam, hash_u64s(&[from as u64, v as u64]));
+            // DateTime -> AnyValue
+            let dec = |a: AnyValue<'static>| match a {
+                AnyValue::Null => None,
+                AnyValue::Datetime(x, t, None) if t == tu(from) => Some(x),
+                other => panic!("unexpected AnyValue {other:?}"),
+            };
+            let av = match from {
+                1 => catch(|| dec(AnyValue::from(DateTime::<Millisecond>::new(v)))),
+                2 => catch(|| dec(AnyValue::from(DateTime::<Microsecond>::new(v)))),
+                _ => catch(|| dec(AnyValue::from(DateTime::<Nanosecond>::new(v)))),
+            };
+            let want_av = if v == NAT { None } else { Some(v) };
+            ctx.eval(fam, hash_bytes(format!("{av:?}").as_bytes()));
+            ctx.transitions += 1;
+            if !matches!(&av, Outcome::Ok(g) if *g == want_av) {
+                viol(ctx, "AnyValue::from(DateTime)", None, json!({"family": fam, "unit": UNITS[from as usize], "value": v}), format!("{want_av:?}"), format!("{av:?}"));
+            }
+            // AnyValue (unit `from`, or Null for NaT) -> DateTime<to>
+            for to in 1..=3u8 {
+                let src = if v == NAT { AnyValue::Null } else { AnyValue::Datetime(v, tu(from), None) };
+                let got = match to {
+                    1 => catch(|| DateTime::<Millisecond>::from(src.clone()).into_i64()),
+                    2 => catch(|| DateTime::<Microsecond>::from(src.clone()).into_i64()),
+                    _ => catch(|| DateTime::<Nanosecond>::from(src.clone()).into_i64()),
+                };
+                ctx.eval(fam, hash_bytes(format!("{got:?}").as_bytes()));
+                ctx.transitions += 1;
+                let ok = match (conv_model(from, to, v), &got) {
+                    (Ok(Some(w)), Outcome::Ok(g)) => *g == w,
+                    (Ok(None), Outcome::Ok(g)) => *g == NAT,
+                    (Err(()), _) => true, // not representable in the target unit
+                    _ => false,
+                };
+                if ok {
+                    ctx.traces += 1;
+                } else {
+                    // F38: the cross-unit arm delegates to polars' cast, which divides toward zero
+                    let f38 = from > to && v < 0 && v != NAT;
+                    viol(ctx, "DateTime::from(AnyValue::Datetime)", if f38 { Some("F38") } else { None }, json!({"family": fam, "from": UNITS[from as usize], "to": UNITS[to as usize], "value": v}), format!("{:?}", conv_model(from, to, v)), format!("{got:?}"));
+                }
+            }
+        }
+    }
+}
+
 fn absorbing(ctx: &mut Ctx) {
     let fam = "absorbing";
     let deltas: Vec<TimeDelta> = ["0s", "1s", "-1s", "1d", "1mo", "-2y3mo", "1ns"].iter().map(|s| TimeDelta::parse(s).unwrap()).collect();
@@ -345,6 +405,8 @@ fn main() {
         let case = &stored["case"];
         if case["family"] == "absorbing" {
             absorbing(&mut ctx);
+        } else if case["family"] == "polars-anyvalue" {
+            anyvalue_bridge(&mut ctx);
         } else {
             let u = UNITS.iter().position(|x| Some(*x) == case["from"].as_str().or(case["unit"].as_str())).unwrap_or(3) as u8;
             check_state(&St { u, v: case["value"].as_i64().unwrap_or(0) }, &mut ctx);
@@ -372,6 +434,7 @@ fn main() {
         }
     }
     absorbing(&mut ctx);
+    anyvalue_bridge(&mut ctx);
     // cross-check with the second engine
     let explorer_states = seen.len();
     let (sr_states, sr_discoveries) = stateright_crosscheck(depth);
